@@ -189,10 +189,11 @@ def interp_1d_conservative(phi, theta, target_theta_bins):
 
 
 def _unused_dim_name(name, *arrays):
-    """Return `name`, extended until none of the arrays uses it as a dimension."""
+    """Return `name`, extended until none of the arrays uses it as a dimension or coordinate."""
     taken = set()
     for a in arrays:
         taken.update(a.dims)
+        taken.update(a.coords)
     while name in taken:
         name = name + "_"
     return name
